@@ -1,12 +1,12 @@
 //! `Harness` implementation for the managed-pool world: generation, grids,
 //! shrinking candidates and the canonical shape of a scenario.
 
-use crate::common::{Harness, Outcome as RunOutcome};
+use simcore::common::{Harness, Outcome as RunOutcome};
 use crate::engine::Decision;
 use crate::mgen;
 use crate::mrun;
 use crate::mtypes::*;
-use crate::rng::Rng;
+use simcore::rng::Rng;
 
 pub struct Managed;
 
